@@ -150,7 +150,9 @@ Proof.
       destruct (us_group DEL_O DEL_C Placeholder.s_delete get_DEL_O
                   (is_ph_const _ ltac:(cbn; tauto)) (is_ph_const _ ltac:(cbn; tauto)) eq_refl
                   p t (enc d) rtext acc n Hp Hsg Hf Hlen) as (n' & Hn' & ->).
-      rewrite (IH [] _ _ n' plain_nil (fresh_after_push p rtext acc _ eq_refl) Hn').
+      match goal with |- Placeholder.us_loop _ _ _ _ ?rt (?e :: ?ac) = _ =>
+        pose proof (IH [] rt (e :: ac) n' plain_nil eq_refl Hn') as E end.
+      cbn [app] in E. rewrite E. clear E.
       f_equal. rewrite (push_plain_fresh p rtext acc Hf). unfold res_of. cbn [exp].
       destruct (exp d) as [l ws]. cbn [app].
       destruct acc as [|e a]; cbn [fst snd rev app]; rewrite ?app_nil_r; [reflexivity|].
@@ -161,7 +163,9 @@ Proof.
       destruct (us_group INS_O INS_C Placeholder.s_insert get_INS_O
                   (is_ph_const _ ltac:(cbn; tauto)) (is_ph_const _ ltac:(cbn; tauto)) eq_refl
                   p t (enc d) rtext acc n Hp Hsg Hf Hlen) as (n' & Hn' & ->).
-      rewrite (IH [] _ _ n' plain_nil (fresh_after_push p rtext acc _ eq_refl) Hn').
+      match goal with |- Placeholder.us_loop _ _ _ _ ?rt (?e :: ?ac) = _ =>
+        pose proof (IH [] rt (e :: ac) n' plain_nil eq_refl Hn') as E end.
+      cbn [app] in E. rewrite E. clear E.
       f_equal. rewrite (push_plain_fresh p rtext acc Hf). unfold res_of. cbn [exp].
       destruct (exp d) as [l ws]. cbn [app].
       destruct acc as [|e a]; cbn [fst snd rev app]; rewrite ?app_nil_r; [reflexivity|].
